@@ -16,6 +16,7 @@ import Props.C15
 import Proofs.Compose
 import Proofs.Modes
 import Proofs.Select
+import Proofs.SitesValid
 namespace Coma.Props
 open Coma Coma.Spec
 
@@ -42,6 +43,26 @@ theorem C01_candidate_valid_partial (P : Params) (c : Seg) (cs out : List Seg) (
     (hp : ∀ s ∈ out, s.pairs ≠ []) (ha : ∀ s ∈ out, PairsAscending s.items) :
     (out.flatMap Seg.pairs).Pairwise (fun a b => a.r.pos < b.r.pos ∧ a.q.pos < b.q.pos) :=
   Coma.Proofs.separated_pairs_ascending out (Coma.Proofs.resolveFrom_all_separated P c cs out bs h hF hS hb hp) ha
+
+/-- in LABEL NUMBERS: a candidate whose listed pairs are strictly ascending on both maps in
+    coordinates (previous theorem) is a one-to-one collinear matching of real labels — reference
+    numbers strictly ascending, query numbers strictly increasing for '+' / decreasing for '-' -/
+theorem C01_candidate_sites_valid_partial (P : Params) (C : ChainCfg) (hP : GoodParams P) (ref qry : OMap) (peaks : List Int)
+    (rev : Bool) (it : Int) (hr : StrictAscending ref.positions) (hq : StrictAscending qry.positions)
+    (row : Row) (h : alignerAlign P C ref qry peaks rev it = .ok row)
+    (hasc : row.pairs.Pairwise (fun a b => a.r.pos < b.r.pos ∧ a.q.pos < b.q.pos)) :
+    ValidMatching rev (sitePairs row.pairs) ∧
+    (∀ p ∈ row.pairs, p.r ∈ ref.labels false ∧ p.q ∈ qry.labels rev) :=
+  Coma.Proofs.candidate_sites_valid P C hP ref qry peaks rev it hr hq row h hasc
+
+/-- full strength for the common case: a candidate with at most one non-empty segment (one seed
+    peak, or all but one segment dropped by the chainer) is ALWAYS a valid matching -/
+theorem C01_single_segment_valid (P : Params) (C : ChainCfg) (hP : GoodParams P) (ref qry : OMap) (peaks : List Int)
+    (rev : Bool) (it : Int) (hr : StrictAscending ref.positions) (hq : StrictAscending qry.positions)
+    (row : Row) (h : alignerAlign P C ref qry peaks rev it = .ok row)
+    (h1 : (row.segments.filter (fun s => !s.items.isEmpty)).length ≤ 1) :
+    ValidMatching rev (sitePairs row.pairs) :=
+  Coma.Proofs.candidate_single_segment_valid P C hP ref qry peaks rev it hr hq row h h1
 
 /-- the two refutations of the full claim are the C15 witnesses: (F6 / KF-b) the interior index
     merge leaves query label 2 in both segments … -/
